@@ -184,6 +184,31 @@ func assignsBefore(fd *ast.FuncDecl, field string, pos token.Pos) string {
 	return val
 }
 
+// sprintfFormat: the format literal of the fmt.Sprintf call inside a function; when the function only forwards to a
+// helper without a format (the shape before the side maps were separated) the format found in that helper.
+func sprintfFormat(fd *ast.FuncDecl) string {
+	format := ""
+	ast.Inspect(fd.Body, func(n ast.Node) bool {
+		if ce, ok := n.(*ast.CallExpr); ok && exprString(ce.Fun) == "fmt.Sprintf" && len(ce.Args) > 0 && format == "" {
+			if bl, ok := ce.Args[0].(*ast.BasicLit); ok {
+				format = bl.Value
+			}
+		}
+		return true
+	})
+	if format == "" {
+		format = "\"<helper>\""
+	}
+	return strings.Trim(format, "\"")
+}
+
+func suffixOf(fa, fc string) string {
+	if strings.HasPrefix(fa, fc) && fa != fc {
+		return strings.TrimPrefix(fa, fc)
+	}
+	return ""
+}
+
 func leanBool(b bool) string {
 	if b {
 		return "true"
@@ -550,6 +575,14 @@ func init() {
 				}
 				fmt.Fprintf(&out, "/-- `%s` in %s calls `s.store(…)` (values half) before the entry compare-and-set -/\ndef %s%sValuesFirst : Bool := %s\n\n",
 					m, src.rel, src.prefix, m, leanBool(si >= 0 && pi >= 0 && si < pi))
+			}
+			// configuration stores: do getCommitted and getApplied open the same atomix map (same name format)?
+			if gc, ga := methodDecl(f, "getCommitted"), methodDecl(f, "getApplied"); gc != nil && ga != nil {
+				fc, fa := sprintfFormat(gc), sprintfFormat(ga)
+				fmt.Fprintf(&out, "/-- `getCommitted` (%s) and `getApplied` (%s) of %s name the same atomix map -/\ndef %sSideMapsShared : Bool := %s\n\n",
+					fc, fa, src.rel, src.prefix, leanBool(fc == fa))
+				fmt.Fprintf(&out, "/-- the applied map's name is the committed map's name followed by this suffix (empty when shared or not of that shape) -/\ndef %sAppliedSuffix : String := %s\n\n",
+					src.prefix, leanStr(suffixOf(fa, fc)))
 			}
 			wd := methodDecl(f, "Watch")
 			if wd == nil {
